@@ -1289,3 +1289,63 @@ Proof.
   intros H. destruct (run_ldr_load _ _ _ _ _ _ _ _ _ R1 W) as (Efs & IR & L).
   exists c. split; auto. eapply run_lfwc; eauto. rewrite Efs; auto.
 Qed.
+
+(* ------------------------------------------------------------------ failures before anything was created *)
+
+(* an event that cannot have changed the state *)
+Definition quiet_ev (e : event) : Prop :=
+  (mutating (ev_op e) = true -> ev_ok e = false) /\
+  (ev_op e = ORemoveAll -> ev_path e = "" \/ ev_ok e = false).
+
+Lemma step_quiet fault e w :
+  (forall c, e <> EChoose c) ->
+  quiet_ev (mkEv (eff_op e) (eff_path e) (res_ok (snd (step_world fault e w)))) ->
+  w_fs (fst (step_world fault e w)) = w_fs w.
+Proof.
+  intros Hc [Hm Hr]. unfold step_world in *.
+  destruct (fallible e && fault_hit fault (w_n w))%bool; [reflexivity|].
+  destruct e; cbn [exec] in *.
+  - reflexivity.
+  - reflexivity.
+  - destruct (fs_mkdir (w_fs w) p); cbn in *; auto. specialize (Hm eq_refl). discriminate.
+  - destruct (fs_mkdir (w_fs w) p); cbn in *; auto. specialize (Hm eq_refl). discriminate.
+  - destruct (fs_find (w_fs w) p) as [|? [|?]| |]; reflexivity.
+  - destruct (fs_find (w_fs w) p) as [|? [|?]| |]; reflexivity.
+  - destruct (fs_write (w_fs w) p c); cbn in *; auto. specialize (Hm eq_refl). discriminate.
+  - unfold fs_remove_all in *. destruct (fs_find (w_fs w) p) as [|q e| |] eqn:F; cbn in *; auto.
+    destruct (Hr eq_refl) as [->|?]; [cbn in F|]; discriminate.
+  - exfalso. eapply Hc; eauto.
+Qed.
+
+Lemma run_quiet {A} ch fault (m : prog A) : forall w w' out,
+  run ch fault m w = (w', out) ->
+  exists l, w_trace w' = l ++ w_trace w /\ (Forall quiet_ev l -> w_fs w' = w_fs w).
+Proof.
+  induction m as [a|e k IH|x]; intros w w' out H.
+  - cbn in H. inv H. exists []. auto.
+  - destruct e; try (
+      rewrite run_op in H by discriminate;
+      match type of H with context [step_world fault ?e w] =>
+        pose proof (step_trace fault e w) as T; pose proof (step_quiet fault e w) as Q;
+        destruct (step_world fault e w) as [w1 r] eqn:S end;
+      cbn [fst snd] in T, Q;
+      destruct (IH _ _ _ _ H) as (l & El & Hl);
+      eexists (l ++ [_]); split;
+      [rewrite El, T, <- app_assoc; reflexivity|];
+      intros F; apply Forall_app in F; destruct F as [F1 F2]; inv F2;
+      rewrite Hl by auto; apply Q; [discriminate | auto]; fail).
+    rewrite run_choose in H. eapply IH; eauto.
+  - cbn in H. inv H. exists []. auto.
+Qed.
+
+(* If no event of the run can have changed the state (no successful mkdir/write, no RemoveAll of a
+   real path), the final state IS the initial state — in particular failures before Mkdir(newDir)
+   leave nothing behind. *)
+Theorem nothing_created_nothing_left orc ch fuel target scope newdir fault s w out :
+  run_localize orc ch fuel target scope newdir fault s = (w, out) ->
+  Forall quiet_ev (w_trace w) ->
+  w_fs w = s.
+Proof.
+  intros H F. unfold run_localize in H. destruct (run_quiet _ _ _ _ _ _ H) as (l & El & Hl).
+  cbn in El. rewrite app_nil_r in El. subst l. apply Hl; auto.
+Qed.
